@@ -1164,7 +1164,19 @@ func (s *memState) apply(cur *Term, w *memWrite) *Term {
 	if ci, ok := w.instr.(ssa.CallInstruction); ok {
 		ct = s.e.callTerm(ci.Common())
 	}
+	// canonical form: the value of the whole root object after the call,
+	// projected to the path written (independent of the granularity at which
+	// the callee's summary lists its writes)
+	hasWild := false
+	for _, c := range w.path {
+		if c == "[*]" {
+			hasWild = true
+		}
+	}
 	m := &Term{Op: "mod", Args: []*Term{ct, s.e.symbolicLoc(s.root, w.path)}}
+	if !hasWild {
+		m = projectPath(&Term{Op: "mod", Args: []*Term{ct, s.e.symbolicLoc(s.root, nil)}}, w.path)
+	}
 	if isPrefix(w.path, s.path) {
 		return projectPath(m, s.path[len(w.path):])
 	}
